@@ -503,6 +503,10 @@ class Executor:
             v = self.const_body_value(cands[0])
             if v is not None:
                 return v
+            if getattr(cands[0], "simple", None) is None:
+                v = self.run_const(cands[0])  # aggregates (const arrays / tuples)
+                if v is not None:
+                    return self.copy_value(v)
         m = re.fullmatch(r"(?:\w+::)*(\w+)::(MAX|MIN)", t) or re.fullmatch(r"(?:core|std)::num::<impl (\w+)>::(MAX|MIN)", t)
         if m and m.group(1) in INT_TYPES:
             w, s = INT_TYPES[m.group(1)]
